@@ -673,4 +673,28 @@ theorem rankedList_ids_nodup {cands : List Cand} {args : List ETy} (h : (cands.m
       rw [hx] at hm
       exact h.1 (rankedList_ids_subset hm)
 
+/-! ## the printed verdict -/
+
+theorem insertSorted_comm (x y : Nat) : ∀ l, insertSorted x (insertSorted y l) = insertSorted y (insertSorted x l)
+  | [] => by
+    simp only [insertSorted]
+    by_cases h1 : x ≤ y <;> by_cases h2 : y ≤ x <;> simp [h1, h2]
+    · omega
+    · omega
+  | z :: zs => by
+    have ih := insertSorted_comm x y zs
+    by_cases hxz : x ≤ z <;> by_cases hyz : y ≤ z <;> by_cases hxy : x ≤ y <;> by_cases hyx : y ≤ x <;>
+      simp [insertSorted, hxz, hyz, hxy, hyx, ih] <;> omega
+
+theorem sortIds_perm {l l' : List Nat} (h : List.Perm l l') : sortIds l = sortIds l' := by
+  induction h with
+  | nil => rfl
+  | cons x _ ih => simp only [sortIds, List.foldr_cons] at ih ⊢; rw [ih]
+  | swap x y l => simp only [sortIds, List.foldr_cons]; exact insertSorted_comm y x _
+  | trans _ _ ih1 ih2 => rw [ih1, ih2]
+
+theorem normalize_eq_of_equiv {o o' : Outcome} (h : Outcome.Equiv o o') : o.normalize = o'.normalize := by
+  cases o <;> cases o' <;> simp_all [Outcome.Equiv, Outcome.normalize]
+  exact sortIds_perm h
+
 end RsslVerif.Lemmas.Overload
